@@ -133,6 +133,28 @@ theorem adjRow_slide (kr : Bool) (e : Edit) (r : Spec.RowEnd) (op : Str) (ho : o
         rw [slideIdx_lt hlt]
     · simp only [hd, false_and, if_false]
 
+/-! ### the operand's sheet prefix: everything before the LAST `!` -/
+
+def isSep (c : Char) : Bool := c.toNat == Facts.C07.sheetSep
+
+theorem lastIdx_noSep (tv : Str) (h : noBang tv) : lastIdx (fun c => c.toNat == Facts.C07.sheetSep) tv = none :=
+  lastIdx_none_of h
+
+theorem lastIdx_sep (name cell : Str) (hc : noBang cell) :
+    lastIdx (fun c => c.toNat == Facts.C07.sheetSep) (name ++ '!' :: cell) = some name.length := by
+  have e : name ++ '!' :: cell = (name ++ ['!']) ++ cell := by simp
+  rw [e, lastIdx_append_none _ _ _ hc, lastIdx_snoc _ _ _ (by decide)]
+
+theorem take_sep (name cell : Str) : (name ++ '!' :: cell).take name.length = name := by
+  induction name with
+  | nil => rfl
+  | cons x xs ih => simp [ih]
+
+theorem drop_sep (name cell : Str) : (name ++ '!' :: cell).drop (name.length + 1) = cell := by
+  induction name with
+  | nil => rfl
+  | cons x xs ih => simpa using ih
+
 theorem slideCol_abs (kr : Bool) (e : Edit) (c : Spec.ColEnd) : (Spec.slideCol kr e c).abs = c.abs := by
   unfold Spec.slideCol; split <;> rfl
 
@@ -174,5 +196,47 @@ theorem shiftRow_slide {kr : Bool} {e : Edit} {r r' : Spec.RowEnd} (hs : Spec.sh
   · rename_i hm
     simp only [hm, if_false]
     simpa using hs
+
+/-- without an `ARRAY(` pseudo-function token no token is treated as array punctuation -/
+theorem arrayMarks_none (toks : List Token) (st : List Impl.AKind)
+    (hna : ∀ t ∈ toks, Impl.isArrayStart t = false) (hst : ∀ k ∈ st, k = Impl.AKind.paren) :
+    ∀ m ∈ Impl.arrayMarks st none toks, m = none := by
+  induction toks generalizing st with
+  | nil => simp [Impl.arrayMarks]
+  | cons t ts ih =>
+    have hna' : ∀ t ∈ ts, Impl.isArrayStart t = false := fun x hx => hna x (by simp [hx])
+    have h0 : Impl.isArrayStart t = false := hna t (by simp)
+    have hhead : (st.head? == some Impl.AKind.arr) = false := by
+      cases st with
+      | nil => rfl
+      | cons k _ => have := hst k (by simp); subst this; rfl
+    unfold Impl.arrayMarks
+    by_cases h1 : Impl.isStartTok t = true
+    · simp only [h1, if_true, h0, Bool.false_and, Bool.false_eq_true, if_false, hhead, Bool.and_false]
+      intro m hm
+      rcases List.mem_cons.mp hm with rfl | hm
+      · rfl
+      · exact ih _ hna' (by intro k hk; rcases List.mem_cons.mp hk with rfl | hk; rfl; exact hst k hk) m hm
+    · simp only [h1, Bool.false_eq_true, if_false]
+      by_cases h2 : Impl.isStopTok t = true
+      · simp only [h2, if_true]
+        cases st with
+        | nil =>
+          intro m hm
+          rcases List.mem_cons.mp hm with rfl | hm
+          · rfl
+          · exact ih _ hna' (by simp) m hm
+        | cons k st' =>
+          have := hst k (by simp); subst this
+          intro m hm
+          rcases List.mem_cons.mp hm with rfl | hm
+          · rfl
+          · exact ih _ hna' (fun k hk => hst k (by simp [hk])) m hm
+      · simp only [h2, Bool.false_eq_true, if_false]
+        intro m hm
+        rcases List.mem_cons.mp hm with rfl | hm
+        · rfl
+        · exact ih _ hna' hst m hm
+
 
 end XlModel.FormulaRef
